@@ -721,4 +721,33 @@ theorem quiescent_actor_where (s : Sys) (hq : quiescent s) :
     · exact Or.inr (Or.inr ⟨by omega, Or.inr (Or.inr ⟨a, b, c, rfl⟩)⟩)
   | ended => exact Or.inr (Or.inl rfl)
 
+/-- a parked actor in a quiescent state is referenced, has no kill pending and an empty mailbox: with a pending kill,
+    without any strong reference, or with mail waiting, the parked loop is woken (and then stops or serves) -/
+theorem quiescent_parked (s : Sys) (hq : quiescent s) (hpk : s.pc = .parked) :
+    s.termSlot = false ∧ s.strongCount ≠ 0 ∧ s.mbox = [] := by
+  have h := hq.1
+  simp only [actorLabel, hpk] at h
+  split at h
+  · cases h
+  · rename_i hcond
+    simp only [Bool.or_eq_true, not_or] at hcond
+    refine ⟨by simpa using hcond.1.1.1, by simpa using hcond.1.1.2, ?_⟩
+    have : s.mbox.isEmpty = true := by simpa using hcond.1.2
+    simpa using this
+
+/-- hence: in a quiescent state an actor with a kill pending, or with no strong reference left, or with mail waiting,
+    has ended - unless it is inside a hook that waits for its own external event -/
+theorem quiescent_due_has_ended (s : Sys) (hq : quiescent s)
+    (hdue : s.termSlot = true ∨ s.strongCount = 0 ∨ s.mbox ≠ []) :
+    s.pc = .ended ∨
+    (s.gatePermits = 0 ∧ (s.pc = .starting ∨ (∃ m k, s.pc = .inHandler m k) ∨ ∃ a b c, s.pc = .stopping a b c)) := by
+  rcases quiescent_actor_where s hq with h | h | h
+  · obtain ⟨h1, h2, h3⟩ := quiescent_parked s hq h
+    rcases hdue with hd | hd | hd
+    · rw [h1] at hd; cases hd
+    · exact absurd hd h2
+    · exact absurd h3 hd
+  · exact Or.inl h
+  · exact Or.inr h
+
 end Rsactor.Model
